@@ -885,6 +885,51 @@ func (e *Engine) dispatch(s *State, f *Frame, fn *ssa.Function, args []Value, bi
 			}
 			setRes(st, x, B(yes))
 		})
+	case "(*sync/atomic.Pointer[T]).Load", "(*sync/atomic.Pointer[T]).Store", "(*sync/atomic.Pointer[T]).Swap", "(*sync/atomic.Pointer[T]).CompareAndSwap":
+		// atomic.Pointer[T]: a sequentially consistent cell holding a *T (its field v)
+		p := args[0].(*Ptr)
+		if p.Obj == 0 {
+			s.panicd = "nil *atomic.Pointer at " + site
+			return nil
+		}
+		st := fn.Signature.Recv().Type().Underlying().(*types.Pointer).Elem().Underlying().(*types.Struct)
+		fi := -1
+		for i := 0; i < st.NumFields(); i++ {
+			if st.Field(i).Name() == "v" {
+				fi = i
+			}
+		}
+		if fi < 0 {
+			panic(engineUnsupported("layout of atomic.Pointer"))
+		}
+		fp := &Ptr{Obj: p.Obj, Path: append(append([]PathElem{}, p.Path...), PathElem{Field: fi})}
+		cur, _ := e.load(s, fp, site).(*Ptr)
+		if cur == nil {
+			cur = &Ptr{}
+		}
+		switch {
+		case strings.HasSuffix(name, ".Load"):
+			set(cur)
+		case strings.HasSuffix(name, ".Store"):
+			e.store(s, fp, args[1], site)
+		case strings.HasSuffix(name, ".Swap"):
+			e.store(s, fp, args[1], site)
+			set(cur)
+		default:
+			old := args[1].(*Ptr)
+			same := cur.Obj == old.Obj && len(cur.Path) == len(old.Path)
+			if same {
+				for i := range cur.Path {
+					if cur.Path[i] != old.Path[i] {
+						same = false
+					}
+				}
+			}
+			if same {
+				e.store(s, fp, args[2], site)
+			}
+			set(B(same))
+		}
 	case "(*sync.Pool).Get":
 		// hidden shared state by definition: recorded as a write to the pool object; the object handed out is a
 		// fresh one from New (reuse of an earlier object is not modelled: the path is flagged imprecise)
